@@ -88,6 +88,14 @@ class Spec(unit.UnitSpec):
                 sip = size_in_pages(units, heads)
                 lim = sip + rng.choice([0, 0, 0, 1, ppb - 1, ppb, 3 * ppb])
             grain = units if rng.random() < 0.7 else rng.choice([g for g in (1, 2, 5, 64, 100, 512) if units % g == 0] or [units])
+            if r < 0.55 and rng.random() < 0.5:
+                # limit and block size derived by the CODE's own size_in_pages / default_block_size (as Map64 does), the
+                # oracle keeps its own arithmetic: a list sized by the code must be able to grow to its maximum
+                # (added after seeded change C27b: size_in_pages forgot the bottom sentinel; shows iff (units+heads) % 512 == 0)
+                if rng.random() < 0.6:
+                    units = 512 * rng.choice([1, 2, 3, 16, 17, 31]) - heads
+                cases.append(self.one(rng, units, heads, -1, -1, units, self.steps(rng, units, units)))
+                continue
             cases.append(self.one(rng, units, heads, ppb, lim, grain, self.steps(rng, units, grain)))
         return cases
 
@@ -101,6 +109,10 @@ class Spec(unit.UnitSpec):
             self.one(rng, 8190, 1, 16, 16, 8190, [8190]),
             self.one(rng, 16382, 1, 16, 32, 16382, [1, 8189, 8192]),
             Case(["fl map64 3 536870912 536870912", "fl map64 1 2048 2048", "fl map64 2 1000000 1000000"], tag="map64"),
+            # adjusted unit counts with (units + heads) % 512 == 0: the bottom sentinel needs a page of its own
+            Case(["fl map64 1 262656 262656", "fl map64 2 525312 525312", "fl map64 4 787968 787968"], tag="map64"),
+            self.one(rng, 511, 1, -1, -1, 511, [200, 311]),
+            self.one(rng, 8191, 1, -1, -1, 8191, [1, 8189, 1]),
         ]
 
     # ---- the property's own statement on the implementation's answers -------------------------
@@ -116,13 +128,18 @@ class Spec(unit.UnitSpec):
                 except Exception:
                     continue
                 # what Map64 hands to the list is accepted by `new`, with the limit exactly at size_in_pages
-                if f["limit"] != f["sip"] * 4096 or f["ppb"] != min(f["sip"], 16) or f["heads"] != 1:
+                need = size_in_pages(f["max"], f["heads"])          # the oracle's own arithmetic, not the printed `sip`
+                if f["limit"] != need * 4096 or f["sip"] != need or f["ppb"] != min(need, 16) or f["heads"] != 1:
                     bad.append(("rmfl:map64-params", f"`{op}` → {o}"))
             return bad
         if t[:3] != ["fl", "new", "rm"] or len(t) < 8:
             return bad
         units, grain, heads, ppb, lim = (int(x) for x in t[3:8])
         sip = size_in_pages(units, heads)
+        if lim < 0:
+            lim = sip                 # derived by the code: must equal the oracle's own size_in_pages (checked via `fl fields`)
+        if ppb < 0:
+            ppb = min(sip, 16)
         if not (lim >= sip and ppb >= 1 and 1 <= heads <= 128 and units >= 1 and grain >= 1):
             return bad                                           # not accepted by RawMemoryFreeList::new
         cur, allocated, last_fields = 0, [], None
